@@ -117,6 +117,13 @@ Proof.
   intros st szs st' outs HQ H Hg. exact (proj1 (alloc_list_future szs st st' outs HQ H Hg)).
 Qed.
 
+(* ... and every call of a single goroutine returns -- with a range, nil, or one of the two documented panics -- within
+   the fuel of alloc_seq (at most 8 atomic actions per chunk): Allocate cannot hang, whatever TrimTo released before
+   (the general form of the repair of finding 4). *)
+Theorem C12_seq_progress : forall st sz, SeqQ st ->
+  exists st' o, alloc_seq st 0 sz = (st', Some o) /\ (good (Some o) \/ o = OPanic PLimit64).
+Proof. exact seq_progress_good. Qed.
+
 (* ... and every state between calls satisfies the invariant behind C12_disjoint *)
 Theorem C12_seq_disjoint : forall st, SeqQ st ->
   ForallOrdPairs gdisj (handed st) /\ Forall (in_chunk st) (handed st).
